@@ -488,13 +488,15 @@ impl Blockchain {
         let mut old_chain_hash = latest_block_hash;
 
         while old_chain.len() <= length as usize {
-            if self.blocks.contains_key(&old_chain_hash) {
+            if let Some(block) = self.blocks.get(&old_chain_hash) {
+                // only blocks that are on the current chain have been wound and can
+                // be unwound. an ancestor which arrived after its descendants were
+                // adopted is stored but is not part of the chain
+                if !block.in_longest_chain {
+                    break;
+                }
                 old_chain.push(old_chain_hash);
-                old_chain_hash = self
-                    .blocks
-                    .get(&old_chain_hash)
-                    .unwrap()
-                    .previous_block_hash;
+                old_chain_hash = block.previous_block_hash;
                 if old_chain_hash == [0; 32] {
                     break;
                 }
